@@ -582,3 +582,21 @@ Proof.
   - intros [H|[]]. discriminate H.
   - constructor; [intros [] | constructor].
 Qed.
+
+(* ------------------------------------------------------------------ what ForallOrdPairs says, by positions *)
+Lemma FOP_nth {A} (R : A -> A -> Prop) l :
+  ForallOrdPairs R l <->
+  (forall x y a b, (x < y)%nat -> nth_error l x = Some a -> nth_error l y = Some b -> R a b).
+Proof.
+  induction l as [|c l IH]; split.
+  - intros _ x y a b _ H. destruct x; discriminate.
+  - intros _. constructor.
+  - intros H x y a b Hxy Ha Hb. apply FOP_inv in H as [Hc Hl].
+    destruct y as [|y]; [lia|]. simpl in Hb. destruct x as [|x].
+    + simpl in Ha. inversion Ha; subst. rewrite Forall_forall in Hc. apply Hc. eapply nth_error_In, Hb.
+    + simpl in Ha. apply (proj1 IH Hl x y a b); [lia | exact Ha | exact Hb].
+  - intros H. constructor.
+    + rewrite Forall_forall. intros b Hb. apply In_nth_error in Hb as [y Hy].
+      apply (H 0%nat (S y) c b); [lia | reflexivity | exact Hy].
+    + apply IH. intros x y a b Hxy Ha Hb. apply (H (S x) (S y) a b); [lia | exact Ha | exact Hb].
+Qed.
